@@ -402,7 +402,7 @@ def r02_9(ctx):
         exp = None
         if any(k == "p2" and v is True for k, v in g.items()):
             exp = "NoQuirks"  # iframe srcdoc document: never quirks / limited quirks
-        elif has("p1.force_quirks", True) or has('p1.name != Some("html")', True):
+        elif has("p1.force_quirks", True) or has('p1.name != Some("html")', True) or has('p1.name == Some("html")', False):
             exp = "Quirks"
         elif has("QUIRKY_PUBLIC_MATCHES", True) or has("QUIRKY_SYSTEM_MATCHES", True) or (has("QUIRKY_PUBLIC_PREFIXES", True) and not has("LIMITED_QUIRKY_PUBLIC_PREFIXES", True)):
             exp = "Quirks"
